@@ -71,7 +71,7 @@ Proof.
   (* where the slot comes from *)
   assert (H1 : lslot (t_sess (tb c1)) sid xi v).
   { destruct (step_lslot cap mx c1 (OExDrop (a_sess x) (a_xi x) retr ack now) sid xi v Hnd1
-                ltac:(intros; discriminate) ltac:(intros; discriminate) ltac:(intros; discriminate) Hl)
+                eq_refl Hl)
       as [H|[[p [t [E _]]]|[[t [E _]]|[[t [E _]]|[r [a [t [E Hv]]]]]]]]; auto; try discriminate.
     destruct Hv; subst v; cbn in Hlive; discriminate. }
   assert (H0 : lslot (nl n) sid xi v).
@@ -170,8 +170,7 @@ Proof.
       try (intros sid xi v Hl Hs; apply Hx; auto; unfold nl in Hs; cbn [core set_core] in Hs;
            apply quiet_lslot in Hs; [|reflexivity]; rewrite Ec1 in Hs; apply quiet_lslot in Hs; [exact Hs|reflexivity]).
     intros sid xi v Hl Hs. unfold nl in Hs. cbn [core atts] in Hs |- *.
-    destruct (step_lslot cap mx c1 (OExAdd id true now) sid xi v ltac:(apply Hi1) ltac:(intros; discriminate)
-                ltac:(intros; discriminate) ltac:(intros; discriminate) Hs)
+    destruct (step_lslot cap mx c1 (OExAdd id true now) sid xi v ltac:(apply Hi1) eq_refl Hs)
       as [H|[[p [t [E1 [E2 E3]]]]|[[t [E1 _]]|[[t [E1 _]]|[r [a [t [E1 _]]]]]]]]; try discriminate.
     + rewrite Ec1 in H. apply quiet_lslot in H; [|reflexivity].
       destruct (Hx sid xi v Hl H) as [w [Hw Hr]]. exists w. split; auto. apply in_or_app; auto.
@@ -196,7 +195,7 @@ Proof.
                  lslot (nl n) sid xi v \/ (sid = a_sess x /\ xi = a_xi x /\ v = XOwned)).
     { intros sid xi v H. unfold c1, do1 in H.
       destruct (step_lslot cap mx (core n) (OExAccept (a_sess x) (a_xi x) now) sid xi v Hnd0
-                  ltac:(intros; discriminate) ltac:(intros; discriminate) ltac:(intros; discriminate) H)
+                  eq_refl H)
         as [H'|[[p [t [E1 _]]]|[[t [E1 [E2 _]]]|[[t [E1 _]]|[r' [a' [t [E1 _]]]]]]]]; try discriminate; auto.
       inversion E1; subst. auto. }
     assert (F3 : ~ lslot (t_sess (tb c2)) (a_sess x) (a_xi x) XPending).
@@ -295,7 +294,7 @@ Proof.
     intros sid xi v Hl Hs. unfold nl in Hs. cbn [core atts] in Hs |- *. unfold do1 in Hs.
     pose proof (timeout_kills_pending cap mx (core n) (a_sess x) (a_xi x) now Hnd0) as Hk.
     destruct (step_lslot cap mx (core n) (OExTimeout (a_sess x) (a_xi x) now) sid xi v Hnd0
-                ltac:(intros; discriminate) ltac:(intros; discriminate) ltac:(intros; discriminate) Hs)
+                eq_refl Hs)
       as [H|[[p [t [E1 _]]]|[[t [E1 _]]|[[t [E1 Ev]]|[r' [a' [t [E1 _]]]]]]]]; try discriminate.
     + destruct (Hx sid xi v Hl H) as [w [Hw [H1 [H2 H3]]]].
       exists w. repeat split; try apply H3; auto. apply att_remove_keeps; auto. intros He.
@@ -305,7 +304,7 @@ Proof.
   - (* NSweep *)
     cbn [fst]. intros sid xi v Hl Hs. apply Hx; auto. unfold nl in Hs. cbn [core set_core] in Hs.
     destruct (step_lslot cap mx (core n) (OSweep now) sid xi v Hnd0
-                ltac:(intros; discriminate) ltac:(intros; discriminate) ltac:(intros; discriminate) Hs)
+                eq_refl Hs)
       as [H|[[p [t [E1 _]]]|[[t [E1 _]]|[[t [E1 _]]|[r' [a' [t [E1 _]]]]]]]]; try discriminate; auto.
   - cbn [fst]. apply xinv_core_quiet; auto.
   - cbn [fst]. intros sid xi v Hl Hs. apply Hx; auto. unfold nl in Hs. cbn [core set_core] in Hs.
@@ -318,7 +317,7 @@ Proof.
     destruct (mode_eqb (s_mode s0) MPlain) eqn:Hm; [exact Hx|].
     cbn [fst]. intros sid xi v Hl Hs. apply Hx; auto. unfold nl in Hs. cbn [core set_core] in Hs.
     destruct (step_lslot cap mx (core n) (OExAdd id false now) sid xi v Hnd0
-                ltac:(intros; discriminate) ltac:(intros; discriminate) ltac:(intros; discriminate) Hs)
+                eq_refl Hs)
       as [H|[[p [t [E1 [E2 E3]]]]|[[t [E1 _]]|[[t [E1 _]]|[r' [a' [t [E1 _]]]]]]]]; try discriminate; auto.
     exfalso. inversion E1; subst sid p t. clear E1.
     (* the session with this identifier is not an unsecured one, before or after *)
@@ -340,7 +339,7 @@ Proof.
     destruct (mode_eqb (s_mode s0) MPlain) eqn:Hm; [exact Hx|].
     cbn [fst]. intros sid xi0 v Hl Hs. apply Hx; auto. unfold nl in Hs. cbn [core set_core] in Hs.
     destruct (step_lslot cap mx (core n) (OExDrop id xi retr ack now) sid xi0 v Hnd0
-                ltac:(intros; discriminate) ltac:(intros; discriminate) ltac:(intros; discriminate) Hs)
+                eq_refl Hs)
       as [H|[[p [t [E1 _]]]|[[t [E1 _]]|[[t [E1 _]]|[r' [a' [t [E1 Ev]]]]]]]]; try discriminate; auto.
     destruct Ev; subst v; cbn in Hl; discriminate.
 Qed.
